@@ -122,16 +122,35 @@ def run(ctx: Context, rep) -> None:
                    "shuffling and reading")
     # the non-tfrec branch delegates with repeat forwarded (C19.forward)
     call = ctx.fn(f"{C.RUST_GEN}.__call__")
-    body = [s for s in call.node.body if not (isinstance(s, ast.Expr) and
-                                              isinstance(s.value, ast.Constant))]
-    ok = len(body) == 2 and ast.unparse(body[0]) == \
-        "yield from self._single_iter()" and isinstance(body[1], ast.While) and \
-        ast.unparse(body[1].test) == "self._repeat" and len(body[1].body) == 1 \
-        and ast.unparse(body[1].body[0]) == "yield from self._single_iter()"
-    alt = len(body) == 1 and isinstance(body[0], ast.While) and False
+    # evaluated on the CFG specialised on self._repeat (any loop shape):
+    #   repeat False: exactly one epoch on every path to the exit
+    #   repeat True : the exit is unreachable and no cycle avoids an epoch
+    from sa.cfg import CFG as _CFG
+    nf = lambda a, b, lab: lab not in ("exc", "raise")  # noqa: E731
+
+    def epochs(cfg_):
+        return [n for n in cfg_.nodes if n.kind == "yield" and
+                "_single_iter" in ast.unparse(n.ast)]
+
+    c0 = _CFG(call, env={"self._repeat": False})
+    e0 = [n for n in epochs(c0) if n in c0.reachable([c0.entry], follow=nf)]
+    once = bool(e0) and c0.exit not in c0.reachable(
+        [c0.entry], avoiding=e0, follow=nf) and not any(
+            m in c0.reachable([n], follow=nf, strict=True) for n in e0
+            for m in e0)
+    c1 = _CFG(call, env={"self._repeat": True})
+    live1 = c1.reachable([c1.entry], follow=nf)
+    e1 = [n for n in epochs(c1) if n in live1]
+    forever = bool(e1) and c1.exit not in live1
+    heads = [n for n in c1.nodes if n in live1 and n.kind in ("loop", "for")]
+    for h in heads:
+        nxt = [m for m, lab in h.succ if nf(h, m, lab)]
+        if h in c1.reachable(nxt, avoiding=e1, follow=nf):
+            forever = False  # a cycle that yields nothing
+    ok, alt = once and forever, False
     rep.ob("C19.inf", ok or alt, loc=call.loc(), where=call.qualname,
-           construct="yield from epoch(); while self._repeat: yield from "
-           "epoch()",
+           construct=f"repeat=False: exactly one epoch={once}; repeat=True: "
+           f"endless epochs={forever}",
            message="one epoch always, further complete epochs while repeat "
            "is set")
     for fq in C.INTERFACES + [f"{C.RUST_GEN}.__init__", C.COMMON]:
